@@ -50,6 +50,10 @@ class Contract:
     ghost: dict[str, str] = field(default_factory=dict)  # ghost params: name -> sort
     pure: bool = True
     note: str = ""
+    # verified text supplied directly (run-time generated code captured from exec): (ModuleSrc, FunctionDef)
+    source: Any = None
+    # extra obligations computed from the final state: hook(machine) -> [(name, z3 Bool)]
+    post_hook: Callable[..., Any] | None = None
     # optional hook run by the machine at function entry (plugins: symbolic self.__class__ etc.)
     setup: Callable[..., Any] | None = None
 
